@@ -97,7 +97,7 @@ def header_objects(pose):
 class C06(common.Prop):
     ID = "C06"
     RUNNER = "codec"
-    MODEL_FILES = ["model/PoseRead.v", "model/C06_Heap.v"]
+    MODEL_FILES = ["model/PoseRead.v", "model/C06_Heap.v", "base/Graph.v", "model/C06_Graph.v", "model/C06_GraphRun.v"]
     RULE = ("histories of 1..8 steps over five small files (same file; same header other body; shorter / equal-length / longer other "
             "header): reads (bytes or stream, full or windowed), in-place mutations of earlier results through every public mutator, "
             "copies; then a probe read. Each result is snapshotted when created and re-dumped at the end; the probe is compared with "
@@ -152,6 +152,24 @@ class C06(common.Prop):
             probe = [rng.choice(self.names), rng.choice(["bytes", "bytes", "stream"]),
                      rng.choice([{}, {}, {"start_frame": 1, "end_frame": 2}])]
             yield {"steps": steps, "probe": probe}
+        # histories inside the object-graph model's scope (byte sources, v0.2 files, edits that keep the set of objects): compared
+        # with it pose by pose - every pose handed out, as it is at the END of the history
+        gnames = [x for x in self.names if x != "A01"]
+        gmut = [m for m in MUTATORS if m != "pop_component"]
+        for _ in range(n):
+            steps = []
+            nres = 0
+            for _ in range(rng.randrange(2, 10)):
+                r = rng.random()
+                if nres == 0 or r < 0.4:
+                    steps.append(["read", rng.choice(gnames), "bytes", rng.choice([{}, {}, {"start_frame": 1}, {"end_frame": 2}, {"start_frame": 1, "end_frame": 3}])])
+                    nres += 1
+                elif r < 0.8:
+                    steps.append(["mutate", rng.randrange(nres), rng.choice(gmut)])
+                else:
+                    steps.append(["copy", rng.randrange(nres)])
+                    nres += 1
+            yield {"steps": steps, "probe": [rng.choice(gnames), "bytes", rng.choice([{}, {}, {"start_frame": 1, "end_frame": 2}])]}
 
     def features(self, case):
         kinds = sorted(set(s[0] for s in case["steps"]))
@@ -173,26 +191,34 @@ class C06(common.Prop):
         from pose_format.pose_header import PoseHeaderCache
         PoseHeaderCache.clear_cache()
         results = []       # (pose, snapshot after creation / own mutations, mutated?)
+        mut_dumps = []     # per step: the mutated pose's dump right after a mutation (None otherwise)
+        ncomps = []        # per result: number of component objects when it was handed out
         for st in case["steps"]:
+            mut_dumps.append(None)
             if st[0] == "read":
                 try:
                     p = self._read(st[1], st[2], st[3])
                 except Exception as e:          # a read that raises hands nothing out (the slot stays, so indexes keep their meaning)
                     results.append([None, ["err", type(e).__name__], ("read", st[1], st[2], st[3])])
+                    ncomps.append(None)
                     continue
                 results.append([p, pg.dump_pose(p), ("read", st[1], st[2], st[3])])
+                ncomps.append(len(p.header.components))
             elif st[0] == "copy":
                 if results[st[1]][0] is None:
                     results.append([None, ["err", "no-source"], ("copy", st[1])])
+                    ncomps.append(None)
                     continue
                 p = results[st[1]][0].copy()
                 results.append([p, pg.dump_pose(p), ("copy", st[1])])
+                ncomps.append(len(p.header.components))
             elif results[st[1]][0] is not None:
                 try:
                     apply_mutator(results[st[1]][0], st[2])
                 except Exception:       # an operation that refuses this pose (focus on a pose without observed points): whatever it
                     pass                # did before raising is still the owner's own change
                 results[st[1]][1] = pg.dump_pose(results[st[1]][0])
+                mut_dumps[-1] = results[st[1]][1]
 
         def safe_probe():
             try:
@@ -223,10 +249,89 @@ class C06(common.Prop):
                         (mi is not ma.nomask and mj is not ma.nomask and np.shares_memory(mi, mj)):
                     shared.append([i, j, "body"])
         case["_impl"] = {"probe": probe_dump, "fresh": fresh, "changed": changed, "shared": shared}
-        return {"probe": probe_dump}
+        case["_mut_dumps"] = mut_dumps
+        case["_impl_handed"] = [r[0] is not None for r in results]
+        case["_ncomps"] = ncomps
+        # every pose handed out, as it is at the end of the history (failed reads hand nothing out)
+        finals = [pg.dump_pose(r[0]) for r in results if r[0] is not None]
+        return {"probe": probe_dump, "finals": finals, "shared_cells": bool(shared)}
 
     # ---------------------------------------------------------------- model
+    @staticmethod
+    def _enc_strs(strs):
+        out = []
+        for x in strs:
+            out += [len(x)] + list(x)
+        return out
+
+    def _cell_edits(self, k, d):
+        """the in-place state of pose k after a mutation, as payload assignments to its cells (paths of model/C06_Graph.v)"""
+        ed = [[1, k, [0], [d["version"]]], [1, k, [0, 0], list(d["dims"])]]
+        for ci, c in enumerate(d["comps"]):
+            ed.append([1, k, [0, 1, ci], self._enc_strs([c["name"], c["format"]])])
+            ed.append([1, k, [0, 1, ci, 0], self._enc_strs(c["points"])])
+            ed.append([1, k, [0, 1, ci, 1], [x for l in c["limbs"] for x in l]])
+            ed.append([1, k, [0, 1, ci, 2], [x for l in c["colors"] for x in l]])
+        ed.append([1, k, [1], [d["fps"]] + list(d["shape"])])
+        ed.append([1, k, [1, 0], list(d["data"])])
+        ed.append([1, k, [1, 1], [int(x) for x in d["mask"]]])
+        ed.append([1, k, [1, 2], list(d["conf"])])
+        return ed
+
     def run_model(self, case, runner):
+        if case["probe"][1] == "bytes" and case["probe"][0] != "A01":
+            g = self.run_graph_model(case, runner)
+            if g is not None:
+                self.graph_cases = getattr(self, "graph_cases", 0) + 1
+                return g
+        return self.run_value_model(case, runner)
+
+    def run_graph_model(self, case, runner):
+        steps = case["steps"]
+        # which results exist on the implementation side tells which reads handed a pose out (the model reports its own flags)
+        ops, kinds = [], []
+        handed_of_result = []      # result index -> handed index or None
+        nh = 0
+        impl_finals = case.get("_impl_handed")      # list of bool per result slot
+        ri = 0
+        for i, st in enumerate(steps):
+            if st[0] == "read":
+                if st[2] != "bytes" or st[1] == "A01":
+                    return None
+                ops.append([0, self.names.index(st[1]), pg.args_tree(st[3])])
+                ok = impl_finals[ri]; ri += 1
+                handed_of_result.append(nh if ok else None)
+                nh += 1 if ok else 0
+            elif st[0] == "copy":
+                ok = impl_finals[ri]; ri += 1
+                if handed_of_result[st[1]] is None:
+                    handed_of_result.append(None)
+                    continue
+                ops.append([2, handed_of_result[st[1]]])
+                handed_of_result.append(nh if ok else None)
+                nh += 1 if ok else 0
+            else:
+                d = case["_mut_dumps"][i]
+                k = handed_of_result[st[1]]
+                if d is None or k is None:
+                    continue
+                if any(not isinstance(x, int) for x in d["mask"]) or "data_dtype" in d or "conf_shape" in d:
+                    return None
+                if len(d["comps"]) != case["_ncomps"][st[1]]:
+                    return None          # the edit removed / added an object: outside the payload-edit model
+                ops += self._cell_edits(k, d)
+        f, kind, args = case["probe"]
+        ops.append([0, self.names.index(f), pg.args_tree(args)])
+        rep = runner.ask([9, [self.files[n] for n in self.names], ops])
+        flags, poses, cells, memo_cells = rep
+        finals = [pg.pose_of_tree(t[0]) if len(t) == 1 else None for t in poses]
+        probe_handed = bool(flags[-1])
+        probe = finals.pop() if probe_handed else ["err"]
+        allc = [c for cs in (cells[:-1] if probe_handed else cells) for c in cs]
+        shared = len(set(allc)) != len(allc) or bool(set(memo_cells) & set(allc))
+        return {"probe": probe, "finals": finals, "shared_cells": shared}
+
+    def run_value_model(self, case, runner):
         # value-level model of the probe: Pose.read in the memo state left by the history's reads (mutations and copies
         # cannot reach the memo in the model: the memo owns a private copy)
         files = [self.files[n] for n in self.names]
@@ -243,7 +348,22 @@ class C06(common.Prop):
         return {"probe": r[1] if r[0] == "ok" else ["err"]}
 
     def compare(self, case, io, mo):
-        return None if io == mo else "probe read differs from the model's history-threaded read"
+        if io["probe"] != mo["probe"]:
+            return "probe read differs from the model's history-threaded read"
+        if "finals" in mo:
+            if len(io["finals"]) != len(mo["finals"]):
+                return "the model hands out %d poses, the implementation %d" % (len(mo["finals"]), len(io["finals"]))
+            for k, (a, b) in enumerate(zip(io["finals"], mo["finals"])):
+                if a != b:
+                    diff = [x for x in (b or {}) if (a or {}).get(x) != b[x]] if isinstance(a, dict) and isinstance(b, dict) else ["?"]
+                    return "pose %d handed out earlier differs at the end of the history from the object-graph model (%s)" % (k, diff)
+            if io["shared_cells"] != mo["shared_cells"]:
+                return "sharing between results: implementation %s, model %s" % (io["shared_cells"], mo["shared_cells"])
+        return None
+
+    def teardown(self):
+        print("C06 object-graph model compared on %d histories (the others: stream sources / legacy twin / structural edits -> value-level model)"
+              % getattr(self, "graph_cases", 0))
 
     # ---------------------------------------------------------------- oracle
     def oracle(self, case):
